@@ -1,18 +1,366 @@
-//! C09 — not built yet (stub).
+//! C09 — formula text survives the tokenizer; translation shifts only relative references (E1).
+#[path = "fgrammar.rs"]
+pub mod fgrammar;
+
 use crate::common::*;
+use crate::e1::*;
 use crate::pool::*;
-use serde_json::Value;
+use fgrammar::*;
+use serde_json::{json, Value};
+use std::collections::BTreeMap;
 
 pub fn entry() -> crate::Entry {
     crate::Entry { id: "C09", run, space, replay }
 }
-pub fn space(_tier: Tier, _id: &str) -> Option<Box<dyn Space>> {
-    None
+
+/// the formula lives at C3
+const CELL: (u32, u32) = (3, 3);
+pub const CO: Coords = Coords { c1: 2, r1: 2, c2: 4, r2: 5 };
+const PLAIN: &str = "Sheet2";
+const PER_CASE: u64 = 8;
+
+const CL_ID_COORD: &str = "identity-set-coordinate";
+const CL_ID_FAR: &str = "identity-insert-far";
+const CL_ID_OTHER: &str = "identity-insert-other-sheet";
+const CL_TRANSLATE: &str = "translate";
+const CLAUSES: [&str; 4] = [CL_ID_COORD, CL_ID_FAR, CL_ID_OTHER, CL_TRANSLATE];
+
+fn guarded<T, F: FnOnce() -> T>(f: F) -> Result<T, String> {
+    std::panic::catch_unwind(std::panic::AssertUnwindSafe(f)).map_err(|e| panic_msg(&e))
 }
-fn replay(_tier: Tier, _case: &Value) -> Vec<Violation> {
-    vec![]
+
+// ---- the three ways through the library -------------------------------------------------------------
+fn lib_set_coordinate(text: &str, dc: i64, dr: i64) -> Result<String, String> {
+    let text = text.to_string();
+    guarded(move || {
+        let mut cell = umya_spreadsheet::Cell::default();
+        cell.set_coordinate(CELL);
+        cell.set_formula(text);
+        cell.set_coordinate(((CELL.0 as i64 + dc) as u32, (CELL.1 as i64 + dr) as u32));
+        cell.get_formula().to_string()
+    })
 }
-fn run(_ctx: &Ctx) -> i32 {
-    eprintln!("MACHINERY: C09 is not built yet");
-    2
+fn find_formula(sheet: &umya_spreadsheet::Worksheet) -> Option<String> {
+    let mut cells: Vec<&umya_spreadsheet::Cell> = sheet.get_cell_collection().into_iter().filter(|c| c.is_formula()).collect();
+    cells.sort_by_key(|c| (*c.get_coordinate().get_row_num(), *c.get_coordinate().get_col_num()));
+    cells.first().map(|c| c.get_formula().to_string())
+}
+fn lib_insert_far(text: &str) -> Result<String, String> {
+    let text = text.to_string();
+    guarded(move || {
+        let mut book = umya_spreadsheet::new_file();
+        let sheet = book.get_sheet_by_name_mut("Sheet1").unwrap();
+        sheet.get_cell_mut(CELL).set_formula(text);
+        sheet.insert_new_row(&1000, &1);
+        find_formula(sheet).unwrap_or_else(|| "<formula cell vanished>".to_string())
+    })
+}
+fn lib_insert_other(text: &str) -> Result<String, String> {
+    let text = text.to_string();
+    guarded(move || {
+        let mut book = umya_spreadsheet::new_file();
+        let _ = book.new_sheet("Sheet2");
+        let _ = book.new_sheet("Other");
+        book.get_sheet_by_name_mut("Sheet1").unwrap().get_cell_mut(CELL).set_formula(text);
+        book.insert_new_row("Other", &1, &1);
+        find_formula(book.get_sheet_by_name("Sheet1").unwrap()).unwrap_or_else(|| "<formula cell vanished>".to_string())
+    })
+}
+
+/// moves of the cell: {0,+-1,+-2}^2 without (0,0), to XFD / to the last row / both, and for every relative part of
+/// every reference the moves that put it on the first / last column or row and one beyond (cell stays in grid)
+fn moves_for(f: &F) -> Vec<(i64, i64)> {
+    let mut v = vec![];
+    for dc in [0i64, 1, -1, 2, -2] {
+        for dr in [0i64, 1, -1, 2, -2] {
+            if (dc, dr) != (0, 0) {
+                v.push((dc, dr));
+            }
+        }
+    }
+    let to_xfd = MAXC as i64 - CELL.0 as i64;
+    let to_last = MAXR as i64 - CELL.1 as i64;
+    v.push((to_xfd, 0));
+    v.push((0, to_last));
+    v.push((to_xfd, to_last));
+    let mut cols = vec![];
+    let mut rows = vec![];
+    for r in ref_leaves(f) {
+        match r.k {
+            RK::Cell { c, r } => {
+                cols.push(c);
+                rows.push(r);
+            }
+            RK::Range { c1, r1, c2, r2 } => {
+                cols.extend([c1, c2]);
+                rows.extend([r1, r2]);
+            }
+            RK::Cols { c1, c2 } => cols.extend([c1, c2]),
+            RK::Rows { r1, r2 } => rows.extend([r1, r2]),
+        }
+    }
+    for c in cols {
+        if !c.abs {
+            for d in [1 - c.n as i64, -(c.n as i64), MAXC as i64 - c.n as i64, MAXC as i64 - c.n as i64 + 1] {
+                let cc = CELL.0 as i64 + d;
+                if cc >= 1 && cc <= MAXC as i64 {
+                    v.push((d, 0));
+                }
+            }
+        }
+    }
+    for r in rows {
+        if !r.abs {
+            for d in [1 - r.n as i64, -(r.n as i64), MAXR as i64 - r.n as i64, MAXR as i64 - r.n as i64 + 1] {
+                let rr = CELL.1 as i64 + d;
+                if rr >= 1 && rr <= MAXR as i64 {
+                    v.push((0, d));
+                }
+            }
+        }
+    }
+    let mut seen = std::collections::HashSet::new();
+    v.retain(|m| seen.insert(*m));
+    v
+}
+
+struct Tally {
+    /// per clause: did any evaluation of this formula fail
+    failed: BTreeMap<&'static str, bool>,
+    panic_tags: BTreeMap<(&'static str, String), Vec<&'static str>>,
+}
+
+fn check_one(f: &F, clause: &'static str, mv: (i64, i64), sink: &mut Sink, tally: &mut Tally, obs: bool) {
+    let orig = render(f);
+    let run = |text: &str| -> Result<String, String> {
+        match clause {
+            CL_ID_FAR => lib_insert_far(text),
+            CL_ID_OTHER => lib_insert_other(text),
+            _ => lib_set_coordinate(text, mv.0, mv.1),
+        }
+    };
+    sink.evaluations += 1;
+    let expected = if clause == CL_TRANSLATE { render(&translate_formula(f, mv.0, mv.1)) } else { orig.clone() };
+    let case = json!({"formula": orig.text, "clause": clause, "move": [mv.0, mv.1]});
+    match run(&orig.text) {
+        Err(msg) => {
+            let class = panic_class(&msg);
+            let tags = tally
+                .panic_tags
+                .entry((clause, class.clone()))
+                .or_insert_with(|| {
+                    let healthy = healthy_leaf(CO);
+                    attribute(f, &healthy, &|g: &F| match run(&render(g).text) {
+                        Err(m) => panic_class(&m) == class,
+                        Ok(_) => false,
+                    })
+                })
+                .clone();
+            tally.failed.insert(clause, true);
+            sink.violations.push(Violation::new(clause, &format!("panic:{}", class), &tags, case, format!("{:?} at C3, {} move {:?}: panic {}", orig.text, clause, mv, msg)));
+        }
+        Ok(got) => {
+            if obs {
+                sink.obs(&got);
+            }
+            let label = "out-of-grid-not-REF";
+            if let Some(d) = compare(&expected, &orig, &got, label) {
+                tally.failed.insert(clause, true);
+                sink.violations.push(Violation::new(clause, &d.symptom, &d.tags, case, format!("{} move {:?}: {}", clause, mv, d.detail)));
+            }
+        }
+    }
+}
+
+fn check_formula(f: &F, only: Option<&'static str>, sink: &mut Sink) {
+    let mut tally = Tally { failed: BTreeMap::new(), panic_tags: BTreeMap::new() };
+    let want = |c: &'static str| only.is_none() || only == Some(c);
+    sink.beat.note(&render(f).text);
+    if want(CL_ID_COORD) {
+        check_one(f, CL_ID_COORD, (0, 0), sink, &mut tally, true);
+    }
+    if want(CL_ID_FAR) {
+        check_one(f, CL_ID_FAR, (0, 0), sink, &mut tally, true);
+    }
+    if want(CL_ID_OTHER) {
+        check_one(f, CL_ID_OTHER, (0, 0), sink, &mut tally, true);
+    }
+    if want(CL_TRANSLATE) {
+        for (i, mv) in moves_for(f).into_iter().enumerate() {
+            check_one(f, CL_TRANSLATE, mv, sink, &mut tally, i < 4);
+        }
+    }
+    let tags = formula_tags(f);
+    for c in CLAUSES {
+        if !want(c) {
+            continue;
+        }
+        let bad = tally.failed.get(c).cloned().unwrap_or(false);
+        for t in &tags {
+            sink.count(&format!("{}|{}|{}", if bad { "failing" } else { "clean" }, c, t), 1);
+        }
+    }
+    sink.count("formulas", 1);
+}
+
+// ---- spaces -------------------------------------------------------------------------------------------
+struct Main {
+    en: Enumerator,
+}
+impl Space for Main {
+    fn len(&self) -> u64 {
+        (self.en.len() + PER_CASE - 1) / PER_CASE
+    }
+    fn describe(&self, i: u64) -> Value {
+        let mut v = vec![];
+        for j in i * PER_CASE..((i + 1) * PER_CASE).min(self.en.len()) {
+            if let Some((_, Some(f))) = self.en.get(j) {
+                v.push(render(&f).text);
+            }
+        }
+        json!({"kind": "formulas", "from": i * PER_CASE, "formulas": v})
+    }
+    fn tags(&self, i: u64) -> Vec<String> {
+        let mut v: Vec<&'static str> = vec![];
+        for j in i * PER_CASE..((i + 1) * PER_CASE).min(self.en.len()) {
+            if let Some((_, Some(f))) = self.en.get(j) {
+                v.extend(formula_tags(&f));
+            }
+        }
+        v.sort();
+        v.dedup();
+        v.iter().map(|s| s.to_string()).collect()
+    }
+    fn run(&self, i: u64, sink: &mut Sink) {
+        for j in i * PER_CASE..((i + 1) * PER_CASE).min(self.en.len()) {
+            match self.en.get(j) {
+                Some((_, Some(f))) => check_formula(&f, None, sink),
+                _ => sink.count("skipped-ill-formed", 1),
+            }
+        }
+    }
+}
+
+/// case = (formula, clause): a hang costs one watchdog timeout and loses nothing else
+struct Bracket {
+    forms: Vec<F>,
+}
+impl Bracket {
+    fn new(en: Enumerator) -> Bracket {
+        let mut forms = vec![];
+        for j in 0..en.len() {
+            if let Some((_, Some(f))) = en.get(j) {
+                forms.push(f);
+            }
+        }
+        Bracket { forms }
+    }
+}
+impl Space for Bracket {
+    fn len(&self) -> u64 {
+        self.forms.len() as u64 * 4
+    }
+    fn describe(&self, i: u64) -> Value {
+        json!({"kind": "bracket-formula", "formula": render(&self.forms[(i / 4) as usize]).text, "clause": CLAUSES[(i % 4) as usize]})
+    }
+    fn tags(&self, i: u64) -> Vec<String> {
+        // the bracket-bearing leaf is the reason the case is in this space
+        let f = &self.forms[(i / 4) as usize];
+        formula_tags(f).into_iter().filter(|t| *t == "structured-ref" || *t == "external-ref").map(|s| s.to_string()).collect()
+    }
+    fn run(&self, i: u64, sink: &mut Sink) {
+        check_formula(&self.forms[(i / 4) as usize], Some(CLAUSES[(i % 4) as usize]), sink);
+    }
+}
+
+pub fn space(tier: Tier, id: &str) -> Option<Box<dyn Space>> {
+    let deep = tier == Tier::Thorough;
+    match id {
+        "main" => Some(Box::new(Main { en: main_space(CO, PLAIN, deep) })),
+        "bracket" => Some(Box::new(Bracket::new(bracket_space(CO, deep)))),
+        _ => None,
+    }
+}
+
+fn replay(tier: Tier, case: &Value) -> Vec<Violation> {
+    replay_e1(space(tier, case["_space"].as_str().unwrap_or("")), case)
+}
+
+/// Validate the own lexer on every enumerated formula and on every expected (translated) rendering shape.
+pub fn validate_all(ens: &[&Enumerator]) -> Result<(u64, u64), String> {
+    let mut n = 0;
+    let mut skipped = 0;
+    for en in ens {
+        for j in 0..en.len() {
+            match en.get(j) {
+                Some((_, Some(f))) => {
+                    n += 1;
+                    let r = render(&f);
+                    validate_lexer(&r).map_err(|e| format!("formula #{}: {}", j, e))?;
+                    // the canonical token stream of a formula compared with itself must be clean
+                    if compare(&r, &r, &r.text, "x").is_some() {
+                        return Err(format!("formula #{} {:?} does not compare equal to itself", j, r.text));
+                    }
+                }
+                _ => skipped += 1,
+            }
+        }
+    }
+    Ok((n, skipped))
+}
+
+fn run(ctx: &Ctx) -> i32 {
+    let deep = ctx.tier == Tier::Thorough;
+    let main = main_space(CO, PLAIN, deep);
+    let br = bracket_space(CO, deep);
+    let (nform, skipped) = match validate_all(&[&main, &br]) {
+        Ok(x) => x,
+        Err(e) => {
+            eprintln!("MACHINERY: C09 own lexer failed its round trip: {}", e);
+            return 2;
+        }
+    };
+    // dead-reference renderings must lex as well
+    for l in full_leaves(CO, PLAIN) {
+        if let Leaf::Ref(r) = &l {
+            let d = F::L(translate_ref(r, -100, -100));
+            if let Err(e) = validate_lexer(&render(&d)) {
+                eprintln!("MACHINERY: C09 own lexer failed on a dead reference: {}", e);
+                return 2;
+            }
+        }
+    }
+    let sections: Vec<Value> = main.summary().into_iter().chain(br.summary()).map(|(n, c)| json!({"section": n, "index_range": c})).collect();
+    let ids = ["main", "bracket"];
+    let spaces = ids.iter().map(|id| (*id, space(ctx.tier, id).unwrap())).collect();
+    run_e1(
+        ctx,
+        E1Spec {
+            spaces,
+            cfg: PoolCfg { chunk: if deep { 8 } else { 1 }, case_timeout: std::time::Duration::from_secs(3), keep_per_class: 2, ..Default::default() },
+            level: "exploration",
+            rule: "every formula of the harness grammar (AST rendered by the harness) in the sections listed under bounds, index -> formula deterministic, simplest first; each formula is put on cell C3 and sent through (i) set_coordinate(C3) [identity], (ii) Worksheet::insert_new_row(1000,1) on its own sheet [identity], (iii) Spreadsheet::insert_new_row(\"Other\",1,1) on another sheet [identity], (iv) set_coordinate(C3+(dc,dr)) for every move of the move alphabet [translation, expected = AST translation]; result and expectation are compared token by token through the harness's own lexer, only insignificant blank runs dropped. A hang is reported by the pool watchdog (clause terminates). distinct_nontrivial = distinct result texts of the identity paths and of the first four moves. counters: clean|<clause>|<tag> = formulas carrying the tag for which every evaluation of the clause was clean; failing|... likewise".into(),
+            alphabets: json!({
+                "leaves_full": full_leaves(CO, PLAIN).iter().map(render_leaf).collect::<Vec<_>>(),
+                "leaves_reduced": reduced_leaves(CO, PLAIN).iter().map(render_leaf).collect::<Vec<_>>(),
+                "leaves_core": core_leaves(CO, PLAIN).iter().map(render_leaf).collect::<Vec<_>>(),
+                "leaves_bracket": bracket_leaves().iter().map(render_leaf).collect::<Vec<_>>(),
+                "unary_templates": unary_templates(&F::L(healthy_leaf(CO))).iter().map(|f| render(f).text).collect::<Vec<_>>(),
+                "binary_templates": binary_templates(&F::L(healthy_leaf(CO)), &F::L(healthy_leaf(CO)), false).iter().map(|f| render(f).text).collect::<Vec<_>>(),
+                "moves": "(dc,dr) in {0,+-1,+-2}^2; to XFD; to row 1048576; both; per relative reference part: onto column/row 1, one below, onto XFD/1048576, one beyond (while the cell stays in the grid)",
+                "formulas": nform,
+            }),
+            bounds: json!({"tier": ctx.tier.name(), "max_leaves": 3, "chain_depth": 6, "sections": sections, "ill_formed_combinations_skipped": skipped,
+                "small_alphabet_for_wrapped_and_3_leaf_sections": if deep {"leaves_reduced"} else {"leaves_core"}}),
+            exhaustive: true,
+            caps_hit: vec![],
+            assumptions: vec![
+                "well-formed = produced by the harness grammar; union/intersection only over reference-valued operands; a trailing blank only at the end of the formula".into(),
+                "a dead reference is compared modulo the spelling Sheet!#REF! / #REF!".into(),
+                "a significant blank run (intersection) is compared as one token whatever its length".into(),
+                "bracket-bearing leaves (structured / external reference) are enumerated in their own space with few partners because every such case costs a watchdog timeout".into(),
+            ],
+            min_distinct: 500,
+        },
+    )
 }
